@@ -102,7 +102,7 @@ def run_case(case_id, pre_abs, msg_abs, seed, keep_xml=False):
         m = parse_msg(msg_xml)
         cls_seen = type(m).__name__
     except Exception as e:  # classification failed: the step cannot even start
-        ev.update(post=pre_abs, status="classify:" + type(e).__name__, warns=[], ser_eq=True, completed_acc=False)
+        ev.update(post=pre_abs, status=("unclassified" if isinstance(e, exc.MosRoMgrException) else "crash:" + type(e).__name__), warns=[], ser_eq=True, completed_acc=completed_of(ro))
         if keep_xml:
             ev["xml"] = {"ro": ro_xml, "msg": msg_xml}
         return ev
